@@ -55,8 +55,9 @@ func verifSimplifyRemoved(idx int) {
 }
 
 // Counter-factual switches for the join / self-intersection-repair findings.
-// verifJoinMode: 0 = unchanged, 1 = never join, 2 = join only edges that are exactly
-// collinear with each other (both end points of one edge on the line of the other).
+// verifJoinMode: 0 = unchanged, 1 = never join, 2 = of the joins whose point lies on the neighbouring
+// edge (the proximity test of checkJoinLeft/Right) only those between edges that are exactly collinear
+// with each other (both end points of one edge on the line of the other) are made.
 var (
 	verifJoinMode              int
 	verifSkipFixSelfIntersects bool
@@ -74,6 +75,15 @@ func verifSkipJoin(e, other *Active, pt Point64, checkCurrX bool) bool {
 		return true
 	case 2:
 		if other == nil {
+			return false
+		}
+		// only joins that the documented proximity test admits are in question: the join point must lie on
+		// the other edge (within half a unit / at the same x); anything else is not this finding
+		if checkCurrX {
+			if PerpendicDistFromLineSqr64(pt, other.bot, other.top) > 0.25 {
+				return false
+			}
+		} else if e.curX != other.curX {
 			return false
 		}
 		return !(isCollinear(e.bot, e.top, other.top) && isCollinear(e.bot, e.top, other.bot))
